@@ -51,6 +51,7 @@ struct AllocLog {
 }
 
 thread_local! {
+    static RING_OK: std::cell::Cell<bool> = const { std::cell::Cell::new(true) };
     static ALLOC: RefCell<AllocLog> = RefCell::new(AllocLog::default());
 }
 
@@ -189,6 +190,7 @@ fn pattern(src: usize, j: u64) -> u8 {
 // ---------------------------------------------------------------------------------------------
 
 struct Held {
+    #[allow(dead_code)]
     buf: BufferRef,
     ptr: usize,
     cap: usize,
@@ -723,6 +725,7 @@ impl Runner<'_> {
                         let n = s.n;
                         self.sys = Some(s);
                         self.ex.tag(format!("kind:{kind}"));
+                        self.ex.tag(if RING_OK.with(|r| r.get()) { "env:ring-available" } else { "env:ring-UNAVAILABLE-fallback-only" });
                         self.finish_line(format!("ok n={n}"))
                     }
                     Err(e) => {
@@ -1039,7 +1042,7 @@ impl Runner<'_> {
                     if let Tx::Pipe(f) = &mut s.tx
                         && let Err(e) = f.write_all(&[byte])
                     {
-                        stop = Some(format!("write failed: {e}"));
+                        fail(self.ex, &self.tainted, "C07:harness", format!("spin: write failed: {e}"));
                         break;
                     }
                     let mut fut = start_read(s, 1, 0);
@@ -1204,8 +1207,32 @@ fn exec(case: &Case) -> Exec {
         }
         r.teardown();
     }
+    // distribution: which kinds of results this case produced
+    let mut classes: Vec<String> = out
+        .iter()
+        .map(|o| {
+            let r = o.split(" | ").next().unwrap_or("");
+            let cls: String = r
+                .split_whitespace()
+                .filter(|w| !w.chars().next().is_some_and(|c| c.is_ascii_digit()) && !w.starts_with("n="))
+                .collect::<Vec<_>>()
+                .join("-");
+            format!("out:{cls}")
+        })
+        .collect();
+    classes.sort();
+    classes.dedup();
+    let moved = out.iter().any(|o| {
+        o.split(" | ").nth(1).is_some_and(|s| s.split_whitespace().next().is_some_and(|x| x.starts_with("S=") && x.contains('0')))
+    });
+    for c in classes {
+        ex.tag(c);
+    }
+    if out.iter().any(|o| o.contains("released L=") && !o.ends_with("L=-")) {
+        ex.tag("release-with-live-handles");
+    }
     ex.out = out;
-    ex.nontrivial = ex.tags.iter().any(|t| t.starts_with("kind:"));
+    ex.nontrivial = ex.tags.iter().any(|t| t.starts_with("kind:")) && moved;
     ex
 }
 
@@ -1575,13 +1602,49 @@ fn gen_raw(rng: &mut Rng, kind: &str, n: u64, len: u64) -> Vec<String> {
     lines
 }
 
+/// does this kernel give us an io_uring driver with a registered buffer ring, `PBUF_STATUS` and a
+/// working managed read? (if not, only the fallback pool is exercised and the evidence says so)
+fn ring_available() -> Result<(), String> {
+    let mut sys = build_sys(true, 2, 8)?;
+    pbuf_head(sys.ring_fd).ok_or("IORING_REGISTER_PBUF_STATUS is not supported")?;
+    let mut s = make_src(&sys, SrcKind::Pipe, 0, 0).map_err(|e| e.to_string())?;
+    if let Tx::Pipe(f) = &mut s.tx {
+        f.write_all(b"x").map_err(|e| e.to_string())?;
+    }
+    let mut fut = start_read(&mut s, 0, 0);
+    let mut ok = false;
+    for _ in 0..100 {
+        let mut cx = noop_cx();
+        if let Poll::Ready(r) = sys.rt().enter(|| fut.as_mut().poll(&mut cx)) {
+            ok = matches!(r, Ok(Some(_)));
+            break;
+        }
+        sys.rt().poll_with(Some(Duration::from_millis(1)));
+    }
+    sys.rt().enter(|| {
+        drop(fut);
+        drop(s);
+    });
+    sys.pool = None;
+    sys.rt = None;
+    if ok { Ok(()) } else { Err("a managed read through the buffer ring did not work".into()) }
+}
+
 fn generate(tier: &str, rng: &mut Rng) -> Vec<Case> {
     let thorough = tier == "thorough";
     let mut cases = vec![];
-    let n_random = if thorough { 16000 } else { 1200 };
+    let ring_ok = match catch(ring_available) {
+        Ok(Ok(())) => true,
+        Ok(Err(e)) | Err(e) => {
+            eprintln!("C07: io_uring buffer ring unavailable ({e}); only the fallback pool is exercised");
+            false
+        }
+    };
+    RING_OK.with(|r| r.set(ring_ok));
+    let n_random = if thorough { 16000 } else { 1000 };
     let lens = [8u64, 16, 32, 64, 1, 3, 24];
     for c in 0..n_random {
-        let kind = if c % 2 == 0 { "ring" } else { "fb" };
+        let kind = if c % 2 == 0 && ring_ok { "ring" } else { "fb" };
         let n = rng.range(1, 16);
         let len = *rng.pick(&lens);
         let n_ops = rng.range(8, if thorough { 90 } else { 60 }) as usize;
@@ -1590,6 +1653,9 @@ fn generate(tier: &str, rng: &mut Rng) -> Vec<Case> {
     // exhaustion for every pool size, both pools
     for n in 1..=16u64 {
         for kind in ["ring", "fb"] {
+            if kind == "ring" && !ring_ok {
+                continue;
+            }
             for rep in 0..(if thorough { 6 } else { 1 }) {
                 let len = *rng.pick(&lens);
                 cases.push(Case { name: format!("exhaust-{kind}-{n}-{rep}"), lines: gen_exhaust(rng, kind, n, len) });
@@ -1597,14 +1663,20 @@ fn generate(tier: &str, rng: &mut Rng) -> Vec<Case> {
         }
     }
     // u16 wrap-around of the ring tail
-    let wraps: Vec<u64> = if thorough { (1..=16).collect() } else { vec![3, 16] };
+    let wraps: Vec<u64> = if !ring_ok {
+        vec![]
+    } else if thorough {
+        (1..=16).collect()
+    } else {
+        vec![3, 16]
+    };
     for n in wraps {
         let len = *rng.pick(&lens[..4]);
         cases.push(Case { name: format!("wrap-{n}"), lines: gen_wrap(rng, n, len) });
     }
     // raw API on pool-owned buffers
     for c in 0..(if thorough { 60 } else { 12 }) {
-        let kind = if c % 2 == 0 { "ring" } else { "fb" };
+        let kind = if c % 2 == 0 && ring_ok { "ring" } else { "fb" };
         let n = rng.range(1, 8);
         cases.push(Case { name: format!("raw-{kind}-{c}"), lines: gen_raw(rng, kind, n, 8) });
     }
@@ -1612,5 +1684,5 @@ fn generate(tier: &str, rng: &mut Rng) -> Vec<Case> {
 }
 
 fn main() {
-    run_harness(generate, exec, "a pool was built and at least one operation ran on it");
+    run_harness(generate, exec, "a pool was built and at least one buffer left the pool (some slot was empty after some operation)");
 }
